@@ -162,6 +162,8 @@ Definition validate_single_call (passages : list (string * passage)) (target arg
               (* `if not isinstance(call_node, ast.Call): raise SyntaxError` (fix a323daa; before it
                  `call_node.args` raised AttributeError here) *)
               if negb (py_body_is_call args_str) then dsyn "call:malformed-arguments" 0 else
+              (* fix F12c: `*args` / `**kwargs` cannot be played; the oracle lists them as the keyword names "*" / "**" *)
+              if str_in "*" keyword_args || str_in "**" keyword_args then dsyn "call:malformed-arguments" 0 else
               let param_names := map pname ps in
               let required := filter (fun p => match pdefault p with None => true | Some _ => false end) ps in
               if List.length ps <? positional_count then dsyn "call:too-many-positional" 0 else
